@@ -8,12 +8,15 @@ import (
 	"github.com/xanzy/go-gitlab"
 )
 
-// Issues returns a channel with gitlab project issues, ascending order.
-func Issues(ctx context.Context, client *gitlab.Client, pid string, since time.Time) <-chan *gitlab.Issue {
+// Issues returns a channel with gitlab project issues, ascending order, and a
+// channel that carries the error that ended the listing early, if any.
+func Issues(ctx context.Context, client *gitlab.Client, pid string, since time.Time) (<-chan *gitlab.Issue, <-chan error) {
 	out := make(chan *gitlab.Issue)
+	listErr := make(chan error, 1)
 
 	go func() {
 		defer close(out)
+		defer close(listErr)
 
 		opts := gitlab.ListProjectIssuesOptions{
 			UpdatedAfter: &since,
@@ -24,6 +27,7 @@ func Issues(ctx context.Context, client *gitlab.Client, pid string, since time.T
 		for {
 			issues, resp, err := client.Issues.ListProjectIssues(pid, &opts, gitlab.WithContext(ctx))
 			if err != nil {
+				listErr <- err
 				return
 			}
 
@@ -39,7 +43,7 @@ func Issues(ctx context.Context, client *gitlab.Client, pid string, since time.T
 		}
 	}()
 
-	return out
+	return out, listErr
 }
 
 // Notes returns a channel with note events
